@@ -33,6 +33,12 @@ type State struct {
 	held      []heldMutex
 	defers    []deferred
 	ghost     map[string]Value // named ghost variables
+	priv      []privCell       // variable cells of this activation that no other code can reach yet
+}
+
+type privCell struct {
+	ref   *Node
+	alloc *ssa.Alloc
 }
 
 func (s *State) clone() *State {
@@ -51,6 +57,7 @@ func (s *State) clone() *State {
 	}
 	n.held = append([]heldMutex(nil), s.held...)
 	n.defers = append([]deferred(nil), s.defers...)
+	n.priv = append([]privCell(nil), s.priv...)
 	return n
 }
 
@@ -574,6 +581,28 @@ func (e *Exec) mergeStates(ss []*State) *State {
 		out.allocBase = nb
 		out.allocN = 0
 		out.pc = And(out.pc, And(cs...))
+	}
+	// private cells: intersection
+	{
+		var keep []privCell
+		for _, pc := range out.priv {
+			all := true
+			for _, s := range live {
+				found := false
+				for _, q := range s.priv {
+					if q.alloc == pc.alloc && q.ref == pc.ref {
+						found = true
+					}
+				}
+				if !found {
+					all = false
+				}
+			}
+			if all {
+				keep = append(keep, pc)
+			}
+		}
+		out.priv = keep
 	}
 	// held mutexes and defers must agree
 	for _, s := range live {
